@@ -25,6 +25,10 @@ Fixed == { [kind |-> "table"], [kind |-> "fold"],
            [kind |-> "hash_exh", maxlen |-> 2, stride |-> IF Thorough THEN 1 ELSE 7],
            [kind |-> "hash_rand", count |-> IF Thorough THEN 3000 ELSE 400, maxlen |-> 64],
            [kind |-> "enc_rand", count |-> IF Thorough THEN 200 ELSE 30, maxlen |-> IF Thorough THEN 4096 ELSE 600],
+           \* byte-level entry points (simd::scalar::hash_string_scalar, SimdOps::hash_string_simd, jenkins_hash_batch)
+           \* take &[u8]: here EVERY byte value 0..255 is reachable, so all strings of <= 2 bytes are enumerated
+           [kind |-> "hashb_exh", maxlen |-> 2, stride |-> IF Thorough THEN 1 ELSE 11],
+           [kind |-> "hashb_rand", count |-> IF Thorough THEN 2000 ELSE 300, maxlen |-> 200],
            [kind |-> "het", count |-> IF Thorough THEN 300 ELSE 60, widths |-> <<8, 16, 32, 48, 56, 64>>] }
 
 Cases == SetToSeq(Fixed) \o SetToSeq(EncCases)
